@@ -355,6 +355,44 @@ Proof.
   cbn [rule_text]. eauto.
 Qed.
 
+(* ---- histories of encoding assignments: the sheet's encoding is always one that was accepted ---- *)
+Definition enc_ok (usable : str -> bool) (sh : list rule) : Prop :=
+  match sh with Charset n :: _ => exists e, usable e = true /\ n = lower e | _ => True end.
+
+Lemma assign_refused usable sh e : usable e = false -> assign usable sh (Some e) = sh.
+Proof. intros H. unfold assign. now rewrite H. Qed.
+
+Definition one_charset (sh : list rule) : Prop :=
+  forall r, In r (tl sh) -> match r with Charset _ => False | Other _ => True end.
+
+Lemma assign_one_charset usable sh a : one_charset sh -> one_charset (assign usable sh a).
+Proof.
+  intros H. destruct a as [e|]; unfold assign.
+  - destruct (usable e); [|exact H]. destruct sh as [|[n|x] r]; simpl; intros q Hq.
+    + destruct Hq.
+    + apply H. exact Hq.
+    + destruct Hq as [<-|Hq]; [exact I|]. apply H. exact Hq.
+  - destruct sh as [|[n|x] r]; try exact H. intros q Hq. apply H. simpl. destruct r; [destruct Hq|]. right. exact Hq.
+Qed.
+
+Lemma assign_ok usable sh a : one_charset sh -> enc_ok usable sh -> enc_ok usable (assign usable sh a).
+Proof.
+  intros H1 H. destruct a as [e|]; unfold assign.
+  - destruct (usable e) eqn:E; [|exact H].
+    destruct (set_encoding_first e sh) as (r & ->). simpl. eauto.
+  - destruct sh as [|[n|x] r]; try exact H.
+    destruct r as [|[n'|x'] r']; simpl; auto.
+    exfalso. apply (H1 (Charset n')). simpl. left. reflexivity.
+Qed.
+
+Theorem history_encoding_accepted_lemma usable : forall ops sh,
+  one_charset sh -> enc_ok usable sh ->
+  one_charset (run_history usable sh ops) /\ enc_ok usable (run_history usable sh ops).
+Proof.
+  induction ops as [|a ops IH]; intros sh H1 H2; [split; assumption|].
+  unfold run_history. simpl. apply IH; [apply assign_one_charset|apply assign_ok]; assumption.
+Qed.
+
 Definition ascii_name (n : str) : bool := forallb (fun c => N.ltb c 128 && negb (N.eqb c 34)) n.
 
 Lemma until_quote_name n rest : ascii_name n = true -> until_quote (n ++ 34%N :: rest) = Some n.
